@@ -158,6 +158,22 @@ Theorem C13_ideal_mac_consistent : forall k a b, ideal_mac k a = ideal_mac k b -
 Proof. exact ideal_mac_inj. Qed.
 Print Assumptions C13_ideal_mac_consistent.
 
+(* The client clause of the property oracle (C13_cli_ok, the boolean evaluated on
+   the implementation's observations) holds for the model on ALL inputs: any
+   client configuration with authentication on or off, any request, any list of
+   delivered datagrams (each parsed in slayers' fixed extension order), the
+   MACs recomputed as the harness does it. *)
+Theorem C13_cli_oracle_holds_on_model : forall mac c k h sp dp pl rs (auth : bool),
+  (forall k m, zlen (mac k m) = 16) ->
+  c_key c = (if auth then Some k else None) ->
+  Forall (fun r => wf_layers (fst r)) rs ->
+  let req := deliver (client_request mac c h sp dp pl) true in
+  C13_cli_ok auth req (recomputed_mac mac k req)
+    (map (fun r => (fst r, recomputed_mac mac k (fst r))) rs)
+    (accepted_of (client_run mac c false 0 rs)) = true.
+Proof. exact cli_oracle_on_model. Qed.
+Print Assumptions C13_cli_oracle_holds_on_model.
+
 (* ---- the hypotheses are satisfiable: a concrete authenticated exchange ---- *)
 (* a 16-byte checksum of the encoded MAC input: enough for the example *)
 Definition ex_mac (k : bytes) (m : macin) : bytes := (fold_left Z.add (ideal_mac k m) 0 mod 256) :: repeat 0 15.
